@@ -87,6 +87,9 @@ func (e extractor) extract(node ast.Node) {
 		if err := pomsg.Validate(node); err != nil {
 			exit(err)
 		}
+		if len(node.Body.Children()) == 0 {
+			return // an empty message has nothing to translate
+		}
 		var pluralVar = ""
 		if plural, ok := node.Body.Children()[0].(*ast.MsgPluralNode); ok {
 			pluralVar = " var=" + plural.VarName
